@@ -5,6 +5,14 @@ ROOT = os.path.dirname(os.path.dirname(os.path.abspath(__file__)))
 
 CLAIMED = {
  # id: (category, text, note, technique, design_ref)
+ "C08": ("exploration",
+         "Seeded simulation of a Count-Min cluster: 2-4 nodes of one counter type (all eight) and shape take weighted update bursts kept inside the counter type, merge each other in memory or as images over an exactly-once network (reorder, loss/retransmit), and for unsigned types run halve/decay epochs while contributions are in flight; total_weight is checked after every update, and after every merge/epoch/checkpoint the serialized table is compared with a model table built from the reference MurmurHash3 and row-seed derivation, estimate >= truth / <= total and lb <= est <= ub for every item and for never-inserted probes, estimate >= scaled truth after epochs; the confidence clause is evaluated per batch with a Hoeffding margin at 1e-9.",
+         "Trusted: exact truth map and model table (reference hashes validated by C16). The confidence clause is one-sided and loose (the theory's bound is Markov's).",
+         "deterministic simulation: exactly-once merge network with racing decay epochs vs exact model table", "DESIGN.md §4 C08"),
+ "C09": ("exploration",
+         "Seeded simulation of a Bloom-filter cluster: compatible filters of one shape on 2-4 nodes take inserts, union over an at-least-once network (reorder, duplicate, loss), intersect epochs, invert, reset and foreign dirty-marker images; bits_used and capacity are checked after every insert, and after every set operation the serialized bit array is compared with a model array filled by reference XXH64 double hashing, every member must be contained (also after a round trip), contains must agree with the reference positions on never-inserted probes, contains_and_insert with prior membership; with_accuracy(n,p) false-positive counts are evaluated per batch against 1.5p with a Bernstein margin at 1e-9.",
+         "Trusted: member-set and bit-vector model (reference XXH64 validated by C16); independent Bloom encoder for foreign images.",
+         "deterministic simulation: at-least-once union network + epochs vs reference bit-vector model", "DESIGN.md §4 C09"),
  "C07": ("exploration",
          "Seeded simulation of a Frequent Items cluster: 2-6 nodes (i64/u64/String items, equal or mixed map sizes) take update bursts (incl. all-equal counts that make a purge remove every counter) and absorb each other's sketches along a PRNG-drawn merge DAG, in memory or as images over an exactly-once network (reorder, suppressed duplicates, loss/retransmit), with framed checkpoints, crashes with torn or surviving newest generation and WAL replay; after every event the exact stream weight / capacity / epsilon clauses are checked, and after every merge, restart and at quiescence every item of the domain is checked against the exact frequency map (bracketing, width, estimate range, frequent_items both error types, row/point-query agreement).",
          "Trusted: exact frequency-map model; harness transport de-dup and durable WAL (torn checkpoints are rejected by the harness frame CRC and never reach the library).",
